@@ -243,6 +243,5 @@ def run(ctx: Ctx):
     corpus(ctx)
     judge(ctx, explore(ctx))
     # static part: schematic request tree (E4) x action templates (E5): C05_action_templates_resolve & co (Props/C05Schema.lean)
-    # TEMPORARILY OFF while the schema extractor is adapted to the route fixes merged on /repo main (F-21, F-25, F-41)
-    # from harness.props import c05x
-    # c05x.extra(ctx)
+    from harness.props import c05x
+    c05x.extra(ctx)
